@@ -236,6 +236,35 @@ pub fn mutate(format: usize, data: &[u8], rng: &mut Rng) -> Vec<u8> {
                         _ => d[6] = *rng.pick(&[0u8, 1, 2, 3, 0xFF]),
                     }
                 }
+                // chunk ids are matched without regard to letter case: re-spell an id, and in half of the
+                // cases also cut the same chunk short (size field and body)
+                if rng.chance(1, 4) && !offs.is_empty() {
+                    let o = offs[rng.below(offs.len() as u64) as usize];
+                    if o + 8 <= d.len() {
+                        for k in 0..4 {
+                            if d[o + k].is_ascii_alphabetic() && rng.chance(2, 3) {
+                                d[o + k] ^= 0x20;
+                            }
+                        }
+                        if rng.bool() {
+                            let sz = u32::from_le_bytes([d[o + 4], d[o + 5], d[o + 6], d[o + 7]]) as usize;
+                            let keep = (*rng.pick(&[0usize, 1, 2, 3, 8, 16, 27, 36])).min(sz);
+                            let end = (o + 8 + sz).min(d.len());
+                            let tail = d[end..].to_vec();
+                            d.truncate((o + 8 + keep).min(d.len()));
+                            d[o + 4..o + 8].copy_from_slice(&(keep as u32).to_le_bytes());
+                            d.extend_from_slice(&tail);
+                        }
+                    }
+                }
+                // 16-bit register fields of the Z80R chunk at the extremes (SP, PC, pairs)
+                if rng.chance(1, 4) {
+                    if let Some(&o) = offs.iter().find(|&&o| o + 8 + 28 <= d.len() && d[o..o + 4].eq_ignore_ascii_case(b"Z80R")) {
+                        let w = *rng.pick(&[0x0000u16, 0x0001, 0x3FFF, 0x4000, 0x5AFF, 0x7FFF, 0x8000, 0xFFFE, 0xFFFF]);
+                        let k = 2 * rng.below(13) as usize;
+                        d[o + 8 + k..o + 8 + k + 2].copy_from_slice(&w.to_le_bytes());
+                    }
+                }
                 // a RAM page chunk re-encoded with the wrong amount of data: stored or zlib-compressed
                 // page of 0 / 1 / half / one byte less / one byte more / far too many bytes
                 if rng.chance(1, 3) {
@@ -262,6 +291,13 @@ pub fn mutate(format: usize, data: &[u8], rng: &mut Rng) -> Vec<u8> {
                         d.extend_from_slice(&tail);
                     }
                 }
+            }
+            4 | 5 if format == 0 && d.len() > 27 => {
+                // SNA header: a 16-bit register field (pairs, SP) at the extremes; SP decides where the 48K
+                // loader looks for PC
+                let w = *rng.pick(&[0x0000u16, 0x0001, 0x3FFE, 0x3FFF, 0x4000, 0x5AFF, 0x7FFF, 0x8000, 0xFFFD, 0xFFFE, 0xFFFF]);
+                let off = if rng.bool() { 23 } else { *rng.pick(&[1usize, 3, 5, 7, 9, 11, 13, 15, 17, 21]) };
+                d[off..off + 2].copy_from_slice(&w.to_le_bytes());
             }
             4 | 5 if format == 6 && d.len() > 16 => {
                 // VTX: size field, stereo byte, player frequency, string terminators
